@@ -1,15 +1,15 @@
 CONSTANTS
   Pool = {1, 2, 4}
   MaxComps = 3
-  MaxFlows = 4
+  MaxFlows = 3
   OutKinds = {1, 2}
   FlowKinds = {1}
   MaxOps = 2
-  Thin = 16
+  Thin = 64
   ThinRes = 0
   FullDepth = 1
   SeedThin = 1
-  SampleMod = 16
+  SampleMod = 24
   SampleRes = 0
 INIT Init
 NEXT Next
